@@ -13,11 +13,46 @@ use rdest::{Metainfo, Session, TrackerResp};
 use std::collections::HashMap;
 use tokio::sync::oneshot;
 
+// peers created by `accept` reach the session through a real loopback connection and are known to it under the remote
+// address of that socket, "127.0.0.1:<source port>"; the source port of peer number K is remembered here
+thread_local! {
+    static LOOPBACK: std::cell::RefCell<HashMap<usize, u16>> = std::cell::RefCell::new(HashMap::new());
+}
+fn loopback_port(k: usize) -> Option<u16> {
+    LOOPBACK.with(|m| m.borrow().get(&k).copied())
+}
 fn addr_of(k: usize) -> String {
-    format!("10.0.0.{}:6881", k)
+    match loopback_port(k) {
+        Some(p) => format!("127.0.0.1:{}", p),
+        None => format!("10.0.0.{}:6881", k),
+    }
 }
 fn num_of(addr: &str) -> usize {
+    if let Some(p) = addr.strip_prefix("127.0.0.1:").and_then(|p| p.parse::<u16>().ok()) {
+        if let Some(k) = LOOPBACK.with(|m| m.borrow().iter().find(|(_, v)| **v == p).map(|(k, _)| *k)) {
+            return k;
+        }
+    }
     addr.split(':').next().unwrap().rsplit('.').next().unwrap().parse().unwrap()
+}
+/// a connection from peer number K arrives at the listener: a loopback socket whose source port is K's (a second
+/// connection of the same K binds the same source port -- SO_REUSEPORT -- and reaches a fresh listening port, so that both
+/// are alive at once under one remote address); returns the accepted end
+async fn loopback_connection(k: usize) -> Option<(tokio::net::TcpStream, tokio::net::TcpStream)> {
+    let listener = tokio::net::TcpListener::bind("127.0.0.1:0").await.ok()?;
+    let sock = tokio::net::TcpSocket::new_v4().ok()?;
+    sock.set_reuseaddr(true).ok()?;
+    sock.set_reuseport(true).ok()?;
+    let port = loopback_port(k).unwrap_or(0);
+    sock.bind(format!("127.0.0.1:{}", port).parse().unwrap()).ok()?;
+    let local = sock.local_addr().ok()?.port();
+    let client = sock.connect(listener.local_addr().ok()?).await.ok()?;
+    let (server, from) = listener.accept().await.ok()?;
+    if from.port() != local {
+        return None;
+    }
+    LOOPBACK.with(|m| m.borrow_mut().insert(k, local));
+    Some((server, client))
 }
 fn id_of(k: usize) -> [u8; 20] {
     let mut id = [b'A'; 20];
@@ -124,7 +159,7 @@ fn snapshot(s: &mut Session, rx: &HashMap<usize, Option<usize>>, bc: &mut tokio:
                     let hex = |b: &[u8]| b.iter().map(|x| format!("{:02x}", x)).collect::<String>();
                     let ok = t.len() == 5
                         && t[1] == hex(&OWN_ID)
-                        && t[2] == hex(&id_of(key))
+                        && t[2] == (if loopback_port(key).is_some() { "-".to_string() } else { hex(&id_of(key)) }) // a listener's task expects no particular id
                         && t[3] == hex(info_hash)
                         && t[4] == s.verif_statuses().len().to_string();
                     format!("peer:{}{}", key, if ok { "" } else { ":BAD" })
@@ -166,7 +201,30 @@ async fn exec(s: &mut Session, rx: &mut HashMap<usize, Option<usize>>, pend: &mu
             }
         };
     }
+    // a peer that came in through `accept` may have been turned away (the listener's own rules): nothing can be said by a
+    // connection that does not exist
+    if op[0] != "accept" && op.len() > 1 {
+        if let Ok(k) = op[1].parse::<usize>() {
+            if loopback_port(k).is_some() && s.verif_peer(&addr_of(k)).is_none() && !matches!(op[0], "setst" | "rotate" | "tresp") {
+                return "SKIP".into();
+            }
+        }
+    }
     match op[0] {
+        "accept" => {
+            // the sockets stay open until the end of the case (HELD), as a live connection's would
+            match loopback_connection(a(1)).await {
+                Some((server, client)) => {
+                    s.verif_accept(server).await;
+                    HELD.with(|h| h.borrow_mut().push(client));
+                    if s.verif_peer(&addr_of(a(1))).is_some() {
+                        rx.entry(a(1)).or_insert(None);
+                    }
+                    "ok".into()
+                }
+                None => "SKIP".into(),
+            }
+        }
         "add" => {
             s.verif_add_peer(&addr_of(a(1)), None);
             rx.insert(a(1), None);
@@ -471,10 +529,13 @@ pub fn run(lines: &[String]) {
             }
         }
         PROGRESS.with(|p| p.borrow_mut().clear());
+        HELD.with(|h| h.borrow_mut().clear());
+        LOOPBACK.with(|m| m.borrow_mut().clear());
         println!("{}", outs.join(" ; "));
     }
 }
 
 thread_local! {
     static PROGRESS: std::cell::RefCell<Vec<String>> = std::cell::RefCell::new(vec![]);
+    static HELD: std::cell::RefCell<Vec<tokio::net::TcpStream>> = std::cell::RefCell::new(vec![]);
 }
